@@ -21,6 +21,7 @@ pub fn check_tree(text: &str, a: &ast::Aidl) -> Result<(usize, usize), String> {
     let mut lookups = 0;
     let mut hits = 0;
     let lines: Vec<&str> = text.split('\n').collect();
+    let exhaustive = text.len() <= 4096;
     for (level, filter) in [
         (Level::All, SymbolFilter::All),
         (Level::ItemsAndItemElements, SymbolFilter::ItemsAndItemElements),
@@ -29,6 +30,9 @@ pub fn check_tree(text: &str, a: &ast::Aidl) -> Result<(usize, usize), String> {
         let exp = reftrav::expected_symbols(a, level);
         let mut positions: Vec<(usize, usize)> = Vec::new();
         for (li, line) in lines.iter().enumerate() {
+            if !exhaustive {
+                break; // very long lines: only the name probes below
+            }
             let n = UnicodeSegmentation::graphemes(*line, true).count();
             for col in 1..=n + 2 {
                 positions.push((li + 1, col));
@@ -57,6 +61,49 @@ pub fn check_tree(text: &str, a: &ast::Aidl) -> Result<(usize, usize), String> {
             }
         }
     }
+    // "consequently": pointing at the place in the SOURCE where a name is written finds a symbol
+    // that covers it. The source position of a name comes from the offsets of its reported range
+    // through the independent offset -> (line, column) oracle.
+    for (level, filter) in [
+        (Level::All, SymbolFilter::All),
+        (Level::ItemsAndItemElements, SymbolFilter::ItemsAndItemElements),
+        (Level::ItemsOnly, SymbolFilter::ItemsOnly),
+    ] {
+        for sy in reftrav::expected_symbols(a, level) {
+            let r = sy.get_range();
+            let (so, eo) = (r.start.offset, r.end.offset);
+            if so >= eo || eo > text.len() {
+                continue; // unnamed argument (empty range) or a range C04 rejects anyway
+            }
+            let mut probes = vec![so, eo];
+            let mut mid = so + (eo - so) / 2;
+            while !text.is_char_boundary(mid) {
+                mid -= 1;
+            }
+            probes.push(mid);
+            for o in probes {
+                if !text.is_char_boundary(o) {
+                    continue;
+                }
+                let Some(lc) = crate::pos::line_col(text, o) else { continue };
+                let got = imp::guarded(|| traverse::find_symbol_at_line_col(a, filter, lc).map(|g| (g.get_range().start.offset, g.get_range().end.offset)))?;
+                lookups += 1;
+                match got {
+                    Some((gs, ge)) if gs <= o && o <= ge => {}
+                    other => {
+                        return Err(format!(
+                            "pointing at {lc:?} (offset {o}, inside the name `{}` written at {so}..{eo}) at level {level:?} finds {}",
+                            &text[so..eo],
+                            match other {
+                                None => "nothing".to_owned(),
+                                Some((gs, ge)) => format!("a symbol covering {gs}..{ge}, which does not contain the offset"),
+                            }
+                        ))
+                    }
+                }
+            }
+        }
+    }
     Ok((lookups, hits))
 }
 
@@ -65,7 +112,7 @@ impl Prop for C16 {
         "C16"
     }
     fn rule(&self) -> String {
-        "case = validated tree of a generated document in a random layout (multi-line, CRLF, multi-byte text before names) x EVERY (line, column) from column 1 to two past the last grapheme cluster of every line, plus positions beyond the last line and (0,0), x the three filter levels. Oracle: the first symbol of the reference traversal at that level whose reported name range contains the position (lexicographic, inclusive at both ends), else nothing; compared by identity. Non-trivial = document spans >= 2 lines and some name is preceded by a multi-byte character on its line; distinct by text.".into()
+        "case = validated tree of a generated document in a random layout (multi-line, CRLF, multi-byte text before names) x EVERY (line, column) from column 1 to two past the last grapheme cluster of every line, plus positions beyond the last line and (0,0), x the three filter levels. Oracle: the first symbol of the reference traversal at that level whose reported name range contains the position (lexicographic, inclusive at both ends), else nothing; compared by identity. In addition, for every symbol the source position of its name (offsets of its range through the offset->(line, column) oracle; start, middle, end) is looked up and must find a symbol covering that offset; 1 document in 400 is placed at the end of a single line longer than 65535 bytes with multi-byte text. Non-trivial = document spans >= 2 lines and some name is preceded by a multi-byte character on its line; distinct by text.".into()
     }
     fn random_cases(&self, tier: Tier) -> u64 {
         tier.pick(8_000, 60_000)
@@ -85,10 +132,27 @@ impl Prop for C16 {
         };
         let d = doccase::gen_doc(&mut s, &cfg, &lc)?;
         st.eval();
-        let text = &d.laid.text;
+        // rarely: the document sits at the end of a single line longer than 65535 bytes
+        let huge = s.chance(1, 400);
+        let huge_text;
+        let text = if huge {
+            st.class("huge-line");
+            huge_text = format!("/* {} */ {}", "\u{e9}".repeat(33_000 + s.below(500)), d.laid.text.replace(['\n', '\r', '\u{85}', '\u{2028}', '\u{2029}', '\u{b}', '\u{c}'], " "));
+            &huge_text
+        } else {
+            &d.laid.text
+        };
         let case = || bytes_case(bytes, json!({"text": text}));
         let (_, v) = imp::run_one(text).map_err(|e| Fail::new(e, case()))?;
-        let tree = v.ast.ok_or_else(|| Fail::new("no tree for a well-formed document", case()))?;
+        let tree = match v.ast {
+            Some(t) => t,
+            None if huge => {
+                // joining the lines may have let a line comment swallow the rest: not a document
+                st.discard("huge-line variant no longer well-formed");
+                return Ok(());
+            }
+            None => return Err(Fail::new("no tree for a well-formed document", case())),
+        };
         let multi_line = text.contains('\n');
         let mb_before_name = reftrav::expected_symbols(&tree, Level::All).iter().any(|sy| {
             let off = sy.get_range().start.offset;
